@@ -80,10 +80,12 @@ def gen_riseset(seed, shard, n):
         lat = rng.choice([rng.uniform(-66.5, 66.5), 0.0, 66.5, -66.5, rng.uniform(60, 66.5), rng.uniform(-66.5, -60)])
         lon = rng.choice([rng.uniform(-180, 180), 0.0, 180.0, -180.0])
         h = rng.choice([0, 0.0, rng.uniform(0, 5000), 5000])
-        ev = {"k": "sun", "y": y, "m": m, "d": d, "lat": lat, "lonf": lon, "hf": float(h), "h": fx(h), "w": fx(math.sqrt(h)),
+        # "any date": the Epoch may carry a time of day (the rising and setting of THAT date are asked for)
+        frac = rng.choice([0.0, 0.0, 0.5, rng.uniform(0.0, 0.9999)])
+        ev = {"k": "sun", "fracf": frac, "y": y, "m": m, "d": d, "lat": lat, "lonf": lon, "hf": float(h), "h": fx(h), "w": fx(math.sqrt(h)),
               "abslat": abs(lat), "mon": m}
         try:
-            rise, sett = Epoch(y, m, d).rise_set(Angle(lat), Angle(lon), h)
+            rise, sett = Epoch(y, m, d + frac).rise_set(Angle(lat), Angle(lon), h)
             ar, hr = _sun_alt_ha(rise.jde(), lat, lon)
             as_, hs = _sun_alt_ha(sett.jde(), lat, lon)
             ev.update(oc="ok", rise=fx(rise.jde()), set=fx(sett.jde()), altr=fx(ar), alts=fx(as_), hr=fx(hr), hs=fx(hs),
